@@ -174,6 +174,18 @@ def fs_term(fs):
 
 
 def ev_term(e, ob=None):
+    if e["k"] == "pair":
+        return "Two (%s) (%s)" % (ev1_term(e["first"], ob), ev1_term(e["second"], ob))
+    return "One (%s)" % ev1_term(e, ob)
+
+
+def pair(first, second, gate):
+    """`first` is held inside the replicas (gate write / snap) or inside a replica's HTTP answer (gate http)
+    while `second` is issued"""
+    return dict(k="pair", first=first, second=second, gate=gate)
+
+
+def ev1_term(e, ob=None):
     k = e["k"]
     fs = fs_term(e.get("fs"))
     if k == "register":
@@ -239,8 +251,9 @@ def obs_term(o):
     reps = "[%s]" % "; ".join("(%s, %s)" % (n(int(a)), MODE.get(m, "ERR")) for a, m in (o["replicas"] or []))
     sigs = sorted((a, b) for a, b in (o["signals"] or []))
     sigt = "[%s]" % "; ".join("(%s, %s)" % (n(a), "true" if b else "false") for a, b in sigs)
-    return "mkobs %s %s %s %s %s %s %s %s %s %s [%s] %s %s" % (
-        RES[o["res"]], reps, "true" if o["ro"] else "false", n(o["rwc"]), onat(o["checkpoint"]),
+    res1 = "None" if not o.get("res1") else "(Some %s)" % RES[o["res1"]]
+    return "mkobs %s %s %s %s %s %s %s %s %s %s %s [%s] %s %s" % (
+        RES[o["res"]], res1, reps, "true" if o["ro"] else "false", n(o["rwc"]), onat(o["checkpoint"]),
         onat(o["maxrev"], -1), "true" if o["signalled"] else "false", lnat(o["registered"]), z(o["size"]),
         "true" if o["feup"] else "false", "; ".join(rep_term(r) for r in o["reps"]), sigt, onat(o["served"], -1))
 
